@@ -170,7 +170,17 @@ func init() {
 			x.markFailed(f, "read")
 			outs = append(outs, Outcome{f, TupleV{TV{SInt, n}, x.freshErr(f, "rderr")}})
 		}
-		return append(outs, x.readStream(st, rd, args[0], cc.Args[0].Type())...)
+		// the dynamic type decides what a zero-length read at the end answers; unknown: either
+		mode := eofUnknown
+		if iv.Dyn != nil {
+			switch iv.Dyn.String() {
+			case "*bytes.Buffer":
+				mode = eofBuffer
+			case "*bytes.Reader":
+				mode = eofReader
+			}
+		}
+		return append(outs, x.readStream(st, rd, args[0], cc.Args[0].Type(), mode)...)
 	}
 }
 
